@@ -175,4 +175,59 @@ theorem initialize_ok_decomp {hash : Bytes} {time : Nat} {deps : List DepositIn}
           simpa [processGenesisActivations] using hgt
     · cases ht
 
+/-! ### `IsValidGenesisState` -/
+
+theorem foldl_count (p : Validator → Bool) (l : List Validator) (n : Nat) :
+    l.foldl (fun c v => if p v then c + 1 else c) n = n + l.countP p := by
+  induction l generalizing n with
+  | nil => simp
+  | cons a t ih =>
+    simp only [List.foldl_cons, List.countP_cons]
+    rw [ih]
+    split <;> omega
+
+theorem filter_range'_countP (p : Validator → Bool) : ∀ (l : List Validator) (k : Nat) (q : Nat → Bool),
+    (∀ i (h : i < l.length), q (k + i) = p l[i]) → ((List.range' k l.length).filter q).length = l.countP p := by
+  intro l
+  induction l with
+  | nil => intro k q _; rfl
+  | cons a t ih =>
+    intro k q hq
+    simp only [List.length_cons, List.range'_succ, List.filter_cons, List.countP_cons]
+    have h0 : q k = p a := hq 0 (by simp)
+    have ht := ih (k + 1) q (fun i h => by
+      have := hq (i + 1) (by simp; omega)
+      simpa [Nat.add_assoc, Nat.add_comm 1 i] using this)
+    rw [h0]
+    cases hp : p a <;> simp [ht]
+
+theorem active_length_countP (l : List Validator) (e : Nat) :
+    (active_indices_of l e).length = l.countP (fun v => is_active_validator v e) := by
+  unfold active_indices_of
+  rw [List.range_eq_range']
+  apply filter_range'_countP
+  intro i h
+  simp [List.getElem?_eq_getElem h]
+
+/-- **`IsValidGenesisState` is `is_valid_genesis_state`** (code shape: time check, then a counting loop over the
+registry; specification: `len(get_active_validator_indices(state, GENESIS_EPOCH))`). -/
+theorem isValidGenesisState_eq_spec (cfg : Config) (s : State) :
+    Impl.isValidGenesisState cfg s = is_valid_genesis_state cfg s := by
+  unfold Impl.isValidGenesisState is_valid_genesis_state get_active_validator_indices
+  rw [active_length_countP]
+  by_cases ht : s.genesis_time < cfg.MIN_GENESIS_TIME
+  · simp [ht]
+  · simp only [ht, if_false]
+    have hf := foldl_count (fun v => decide (v.activation_epoch ≤ GENESIS_EPOCH) && decide (GENESIS_EPOCH < v.exit_epoch)) s.validators 0
+    simp only [is_active_validator]
+    simp only [Bool.and_eq_true, decide_eq_true_eq] at hf ⊢
+    simp only [Nat.zero_add] at hf
+    rw [hf]
+    have key : ∀ n m : Nat, decide (n ≥ m) = if n < m then false else true := by
+      intro n m
+      by_cases h : n < m
+      · simp [h]
+      · simp [h]; omega
+    exact key _ _
+
 end Zrnt.Proofs.Genesis
